@@ -326,6 +326,10 @@ func databaseReading(col *sqlgen.Collector, c caseT, t sqlparser.Statement) stri
 		class = "backslash-percent-or-underscore"
 	case strings.Contains(b, `\x`) || strings.Contains(b, `\X`):
 		class = "backslash-x-inside-string"
+	case (strings.HasPrefix(a, `\x`) || strings.HasPrefix(a, `\X`)) && a[1:] == b:
+		// '\\x41' (an escaped backslash, then x..) is read by the tokenizer into the same bytes as the
+		// raw-prefix form '\x41' and printed as that: MySQL drops the backslash
+		class = "escaped-backslash-before-x-at-literal-start"
 	}
 	col.Violation("C13/database-reading/mysql-string-literal-altered/"+class,
 		fmt.Sprintf("[%s] a string literal reaches MySQL with another value: received %q, sent %q; MySQL reads %q before and %q after (all literals: %q vs %q)", c.Dialect, c.SQL, sent, a, b, recv, got), c)
